@@ -168,6 +168,7 @@ def _work_chunk(args):
             res['harness'].append({'index': i, 'where': 'engine', 'tb': traceback.format_exc()[-2000:]})
             continue
         res['n'] += 1
+        res['digests'].update(kernel.digest(plan).encode())  # the generated input is part of what must be reproducible
         res['digests'].update(history['digest'].encode())
         res['hist'].add(_sig_hash(history['digest']))
         if plan.get('sweep'):
